@@ -335,8 +335,252 @@ inline J plan_c18(uint64_t verif_seed, uint64_t index, int tier) {
     return plan;
 }
 
+
+// ------------------------------------------------------------------------------------------- C01
+// Elements that re-load as "plain elements covering the same region" get a tag of their own inside
+// their cell, so that the pieces can be told apart from the other polygons after loading.
+inline void isolate_region_tags(model::MLib& m, uint64_t max_points) {
+    for (auto& c : m.cells) {
+        uint32_t next = 30000;
+        for (auto& p : c.polys)
+            if (max_points > 4 && p.pts.size() > max_points) {
+                p.layer = next++;
+                p.dtype = 1;
+                p.hint = 0;
+            }
+        for (auto& p : c.paths)
+            if (!p.simple) {
+                p.layer = next++;
+                p.dtype = 2;
+            }
+        // nothing else may use those tags
+        for (auto& p : c.polys)
+            if (p.layer >= 30000 && !(max_points > 4 && p.pts.size() > max_points)) p.layer = 29999;
+        for (auto& p : c.paths)
+            if (p.layer >= 30000 && p.simple) p.layer = 29999;
+    }
+}
+
+inline J plan_c01(uint64_t verif_seed, uint64_t index, int tier) {
+    uint64_t rs = run_seed(verif_seed, index);
+    Rng root(rs);
+    Rng rm = root.fork(S_MODEL), rsch = root.fork(S_SCHED), re = root.fork(S_ENV), ro = root.fork(S_OPT);
+    J plan = J::obj();
+    plan.set("prop", "C01");
+    plan.set("seed", J::hex(rs));
+    plan.set("index", (int64_t)index);
+    plan.set("heap_seed", J::hex(re.next()));
+    plan.set("clock", random_clock(re));
+    uint64_t max_points = pick_max_points(ro);
+    gen::Cfg cfg;
+    cfg.mode = canon::GDS;
+    cfg.max_cells = (int)ro.range(1, 7);
+    cfg.max_elems = (int)ro.range(1, tier ? 16 : 10);
+    cfg.max_vertices = (int)ro.range(4, 40);
+    cfg.big_polygons = ro.chance(tier ? 0.08 : 0.03);
+    cfg.nonsimple_paths = ro.chance(0.4);
+    cfg.robust_paths = ro.chance(0.4);
+    cfg.long_strings = ro.chance(0.2);
+    cfg.close_vertices = ro.chance(0.1);
+    cfg.simple_polys_only = max_points > 4;  // fracturing is only defined for simple polygons
+    cfg.dangling = false;
+    model::MLib m = gen::library(rm, cfg);
+    isolate_region_tags(m, max_points);
+    J models = J::arr();
+    models.push(model::to_json(m));
+    plan.set("models", models);
+    J ops = J::arr();
+    ops.push(knobs_op(re, 2, 6));
+    bool writer = ro.chance(0.35);
+    J s = op("save_gds");
+    s.set("model", 0);
+    s.set("file", "/sim/c0.gds");
+    s.set("max_points", (int64_t)max_points);
+    s.set("ts", random_ts(ro));
+    s.set("via", writer ? "writer" : "lib");
+    ops.push(s);
+    J l = op("load_check");
+    l.set("file", "/sim/c0.gds");
+    J e = J::obj();
+    e.set("model", 0);
+    e.set("max_points", (int64_t)max_points);
+    l.set("expect", e);
+    l.set("keep", "L0");
+    ops.push(l);
+    int cycles = (int)rsch.range(0, tier ? 5 : 3);
+    for (int i = 1; i <= cycles; i++) {
+        if (rsch.chance(0.5)) {
+            J c = op("clock");
+            if (rsch.chance(0.2))
+                c.set("set", random_clock(rsch));
+            else
+                c.set("add", rsch.range(-100000, 400000000));
+            ops.push(c);
+        }
+        if (rsch.chance(0.2)) ops.push(knobs_op(re, 2, 6));
+        J rsv = op("resave_gds");
+        rsv.set("from", "L" + std::to_string(i - 1));
+        std::string f = "/sim/c" + std::to_string(i) + ".gds";
+        rsv.set("file", f);
+        rsv.set("max_points", (int64_t)(rsch.chance(0.8) ? max_points : 0));
+        rsv.set("ts", random_ts(rsch));
+        rsv.set("via", rsch.chance(0.3) ? "writer" : "lib");
+        ops.push(rsv);
+        J lc = op("load_check");
+        lc.set("file", f);
+        J ec = J::obj();
+        ec.set("canon", "L0");
+        lc.set("expect", ec);
+        lc.set("keep", "L" + std::to_string(i));
+        ops.push(lc);
+    }
+    plan.set("ops", ops);
+    return plan;
+}
+
+// ------------------------------------------------------------------------------------------- C03
+// extras of the GDSII data model that gdstk's own writer never produces
+inline void c03_extras(Rng& r, model::MLib& m) {
+    using model::Pt;
+    static const int tri[][3] = {{3, 4, 5}, {4, 3, 5}, {5, 12, 13}, {12, 5, 13}, {8, 15, 17}, {15, 8, 17}};
+    for (size_t ci = 0; ci < m.cells.size(); ci++) {
+        model::MCell& c = m.cells[ci];
+        for (auto& ref : c.refs) {
+            if (ref.rep.type != model::REP_REGULAR) continue;
+            if (r.chance(0.4)) {
+                // lattice exactly aligned with a rotation whose direction is an integer vector
+                const int* t = tri[r.below(6)];
+                int64_t a = (int64_t)r.range(1, 9) * 10, b = (int64_t)r.range(1, 9) * 10;
+                ref.rot_deg = atan2((double)t[1], (double)t[0]) * (180.0 / M_PI);
+                ref.rep.v1 = Pt{a * t[0], a * t[1]};
+                ref.rep.v2 = Pt{-b * t[1], b * t[0]};
+            } else if (r.chance(0.5)) {
+                int q = (int)r.below(4);
+                int64_t a = (int64_t)r.range(1, 60) * 10, b = (int64_t)r.range(1, 60) * 10;
+                ref.rot_deg = 90.0 * q;
+                switch (q) {
+                    case 0: ref.rep.v1 = Pt{a, 0}; ref.rep.v2 = Pt{0, b}; break;
+                    case 1: ref.rep.v1 = Pt{0, a}; ref.rep.v2 = Pt{-b, 0}; break;
+                    case 2: ref.rep.v1 = Pt{-a, 0}; ref.rep.v2 = Pt{0, -b}; break;
+                    default: ref.rep.v1 = Pt{0, -a}; ref.rep.v2 = Pt{b, 0};
+                }
+                if (ref.xrefl && r.chance(0.5)) ref.rep.v2 = Pt{-ref.rep.v2.x, -ref.rep.v2.y};
+            } else {
+                // a lattice that does not follow the rotated axes is not an AREF: the format defines the
+                // second and third point as column/row pitch times count along the (rotated) array axes
+                std::vector<Pt> offs;
+                for (auto& o : canon::rep_offsets(ref.rep))
+                    if (o.x != 0 || o.y != 0) offs.push_back(o);
+                ref.rep = model::MRep();
+                if (!offs.empty()) {
+                    ref.rep.type = model::REP_EXPLICIT;
+                    ref.rep.offs = offs;
+                }
+            }
+        }
+        // explicit repetitions become individual SREFs
+        std::vector<model::MRef> expanded;
+        for (auto& ref : c.refs) {
+            if (ref.rep.type == model::REP_EXPLICIT) {
+                for (auto& o : canon::rep_offsets(ref.rep)) {
+                    model::MRef q = ref;
+                    q.rep = model::MRep();
+                    q.origin = Pt{ref.origin.x + o.x, ref.origin.y + o.y};
+                    expanded.push_back(q);
+                }
+            } else {
+                expanded.push_back(ref);
+            }
+        }
+        c.refs.swap(expanded);
+    }
+}
+
+inline J plan_c03(uint64_t verif_seed, uint64_t index, int tier) {
+    uint64_t rs = run_seed(verif_seed, index);
+    Rng root(rs);
+    Rng rm = root.fork(S_MODEL), rc = root.fork(S_CHOICES), rsch = root.fork(S_SCHED), re = root.fork(S_ENV),
+        ro = root.fork(S_OPT);
+    J plan = J::obj();
+    plan.set("prop", "C03");
+    plan.set("seed", J::hex(rs));
+    plan.set("index", (int64_t)index);
+    plan.set("heap_seed", J::hex(re.next()));
+    plan.set("clock", random_clock(re));
+    J ops = J::arr();
+    ops.push(knobs_op(re, 2, 6));
+    J models = J::arr();
+    bool dir1 = ro.chance(0.6);
+    if (dir1) {
+        gen::Cfg cfg;
+        cfg.mode = canon::GDS;
+        cfg.max_cells = (int)ro.range(1, 6);
+        cfg.max_elems = (int)ro.range(1, tier ? 14 : 9);
+        cfg.max_vertices = (int)ro.range(4, 40);
+        cfg.dangling = ro.chance(0.15);
+        cfg.long_strings = ro.chance(0.2);
+        model::MLib m = gdsify(gen::library(rm, cfg));
+        c03_extras(rm, m);
+        models.push(model::to_json(m));
+        J p = op("peer_gds");
+        p.set("model", 0);
+        p.set("file", "/sim/p.gds");
+        p.set("choices", gdspeer::to_json(gdspeer::random_choices(rc)));
+        ops.push(p);
+        int loads = (int)rsch.range(1, 3);
+        for (int i = 0; i < loads; i++) {
+            J l = op("load_check");
+            l.set("file", "/sim/p.gds");
+            J e = J::obj();
+            e.set("model", 0);
+            l.set("expect", e);
+            if (rsch.chance(0.35)) {
+                static const double units[] = {1e-6, 1e-9, 1e-3, 2.5e-7, 1.0};
+                l.set("unit", units[rsch.below(5)]);
+            }
+            if (rsch.chance(0.3)) l.set("tol", 1e-3);
+            ops.push(l);
+            if (rsch.chance(0.3)) ops.push(knobs_op(re, 2, 6));
+        }
+    } else {
+        uint64_t max_points = pick_max_points(ro);
+        gen::Cfg cfg;
+        cfg.mode = canon::GDS;
+        cfg.max_cells = (int)ro.range(1, 6);
+        cfg.max_elems = (int)ro.range(1, tier ? 14 : 9);
+        cfg.max_vertices = (int)ro.range(4, 40);
+        cfg.big_polygons = ro.chance(0.04);
+        cfg.nonsimple_paths = ro.chance(0.3);
+        cfg.robust_paths = ro.chance(0.3);
+        cfg.long_strings = ro.chance(0.2);
+        cfg.simple_polys_only = max_points > 4;
+        model::MLib m = gen::library(rm, cfg);
+        isolate_region_tags(m, max_points);
+        models.push(model::to_json(m));
+        J s = op("save_gds");
+        s.set("model", 0);
+        s.set("file", "/sim/g.gds");
+        s.set("max_points", (int64_t)max_points);
+        s.set("ts", random_ts(ro));
+        s.set("via", ro.chance(0.35) ? "writer" : "lib");
+        ops.push(s);
+        J pc = op("peer_check");
+        pc.set("file", "/sim/g.gds");
+        J e = J::obj();
+        e.set("model", 0);
+        e.set("max_points", (int64_t)max_points);
+        pc.set("expect", e);
+        ops.push(pc);
+    }
+    plan.set("models", models);
+    plan.set("ops", ops);
+    return plan;
+}
+
 inline J make_plan(const std::string& prop, uint64_t verif_seed, uint64_t index, int tier) {
     if (prop == "C18") return plan_c18(verif_seed, index, tier);
+    if (prop == "C01") return plan_c01(verif_seed, index, tier);
+    if (prop == "C03") return plan_c03(verif_seed, index, tier);
     return J();
 }
 
